@@ -101,10 +101,11 @@ CHECKS.update({
                  "only on the success edge of pointInsidePolygon applied to the polygon parameter, the bounding boxes filled from it and the centre (cellToLatLng) of that very cell, into the "
                  "probed slot that does not hold the cell yet; iterStepPolygonCompact (behind polygonToCellsExperimental), explored with the containment mode fixed, emits a cell in mode "
                  "CENTER only through the centre test of that cell or the inside test of the box covering all its descendants (in mode FULL: boundary-inside test or the latter); the "
-                 "hole / bounding-box pairing convention of pointInsidePolygon's callers; failing callees make both entry points fail.",
+                 "hole / bounding-box pairing convention of pointInsidePolygon's callers; the predicates that loop over the holes answer early only with the constant one hole can decide (R-QLOOP); "
+                 "MAX_EDGE_LENGTH_RADS is not below the average edge length (boxes built from it cover their cell, T17); failing callees make both entry points fail.",
                  "completeness (every cell whose centre is inside is found: flood fill / hierarchy descent), the geometry of the tests themselves (floating-point ray casting, antimeridian "
                  "handling, bounding boxes covering a cell and its descendants), absence of duplicates beyond the slot test, and the size clause (rests on a floating-point estimate).",
-                 "R-GATE must-pass-through (edge dominance + argument binding) and mode-reachability exploration over LLVM IR; R-SIB sibling-call agreement; R-ERRFLOW"),
+                 "R-GATE must-pass-through (edge dominance + argument binding) and mode-reachability exploration over LLVM IR; R-QLOOP quantifier-loop exit rule; R-SIB sibling-call agreement; R-TAB T17,T18 " + TAB + "; R-ERRFLOW"),
  "C08": _partial("C08", "face adjacency/rotation tables are mutual inverses (T5), overage tables (T9), substrate vertex tables are closed ccw rings and the pentagon ones are their "
                  "first five rows (T13); cellAreaKm2 = Rads2*R^2, cellAreaM2 = Km2*10^6; cellAreaRads2 adds one triangle per side (i, (i+1) mod numVerts) of the boundary ring, "
                  "every side once, accumulator from 0.0 (R-FOLD).",
